@@ -360,7 +360,12 @@ def _yields_text(e, fi, depth=0):
             return True
         return len(e.generators) == 1 and isinstance(e.elt, ast.Name) and isinstance(e.generators[0].target, ast.Name) and e.elt.id == e.generators[0].target.id and _yields_text(e.generators[0].iter, fi, depth)
     if isinstance(e, ast.Name) and depth < 2:
-        defs = [a.value for a in ast.walk(fi.node) if isinstance(a, ast.Assign) and any(isinstance(t, ast.Name) and t.id == e.id for t in a.targets)]
+        # definitions above the use (a later re-binding of the name does not feed it, outside a loop)
+        in_loop = any(isinstance(l, (ast.For, ast.While)) and any(x is e for x in ast.walk(l)) for l in ast.walk(fi.node))
+        defs = [a.value for a in ast.walk(fi.node) if isinstance(a, ast.Assign) and any(isinstance(t, ast.Name) and t.id == e.id for t in a.targets) and (in_loop or a.lineno <= e.lineno)]
+        # `x = [e for e in x if e]` only filters what x was
+        defs = [d for d in defs if not (isinstance(d, (ast.ListComp, ast.GeneratorExp, ast.SetComp)) and len(d.generators) == 1 and isinstance(d.generators[0].iter, ast.Name) and d.generators[0].iter.id == e.id
+                                        and isinstance(d.elt, ast.Name) and isinstance(d.generators[0].target, ast.Name) and d.elt.id == d.generators[0].target.id)]
         return bool(defs) and all(_yields_text(d, fi, depth + 1) for d in defs)
     return False
 
